@@ -42,7 +42,7 @@ MODELLED_NOT_VERIFIED = [
     "C19: 'arguments unchanged' and absence of aliasing are checked by fingerprinting every matrix of the pool before and after "
     "each call (value semantics make them trivial in the model); namespaces are not mutated during a history",
 ]
-EXPLANATION = ("81 theorems in Props/C19.lean about the definitions drv_c19 runs (Model/C19.lean, Model/C19Ext.lean), none _partial. "
+EXPLANATION = ("96 theorems in Props/C19.lean about the definitions drv_c19 runs (Model/C19.lean, Model/C19Ext.lean), none _partial. "
                "(d) add_spec, replace_spec, update_spec, extend_spec, extendMatrix_spec/_eq, remove_spec / remove_untouched / remove_ok_iff / "
                "remove_partial_state, discard_spec, keep_spec, rowOp_spec. Element access: getItem_spec (matrix[taxon] creates a missing row), "
                "getItem_idempotent, setItem_spec, newSequence_spec, delItem_spec, itemsOf_spec (namespace order), maxSeqSize_spec. "
@@ -1252,7 +1252,7 @@ def ncodes_table(dendropy):
 def run(ctx):
     dendropy = __import__("dendropy")
     rng = ctx.rng
-    ctx.set_budget(18, 420)
+    ctx.set_budget(12, 420)
     pending = []
     ncodes = ncodes_table(dendropy)
     nhist = ctx.pick(6500, 400000)
